@@ -63,6 +63,9 @@ OPS = {
     "matrices": lambda ds, sc: [ds.get_positions().tolist(), ds.get_bucket_ids().tolist()],
     "sub_problem": lambda ds, sc: [[sorted(map(str, b)) for b in r.buckets] for r in ds.sub_problem_from_ids({0}).rankings],
     "description": lambda ds, sc: [ds.description(), str(ds), repr(ds), sc.description(), str(sc), sc.get_nickname()],
+    # a candidate that lacks elements of the dataset: a refusal is expected - and the dataset must be what it was
+    "kemeny_partial": lambda ds, sc: (lambda r: round(float(KemenyComputingFactory(sc).get_kemeny_score(Ranking([set(b) for b in r.buckets[:1]]), ds)), 6))(
+        next(r for r in ds.rankings if len(r.buckets) >= 1)),
     "kemeny_first": lambda ds, sc: round(float(KemenyComputingFactory(sc).get_kemeny_score(ds.unified_rankings()[0], ds)), 6),
     "scheme_ops": lambda ds, sc: [(sc * 2).penalty_vectors, (0.5 * sc).penalty_vectors, sc.is_equivalent_to(sc * 3), sc[0], sc.b_vector, sc.t_vector],
     "eq": lambda ds, sc: [ds == copy.deepcopy(ds), ds.contains_element("zz"), len(list(iter(ds)))],
